@@ -145,6 +145,11 @@ def fam_options():
         for m in [0, 1, 2, 4, 8, 10, 15]:
             out.append(H([call(el + probe, safeMode=m, reset=True), call(probe.strip())]))
         out.append(H([call("{m}='V'\n= = '<u>|</u>'", safeMode=0, reset=True), call(el + '\n{m} =x=', safeMode=2), call('{m} =x=' + probe)]))
+    # render(source) without an options object: everything persists from the session
+    for m in MODES_ALL:
+        out.append(H([call("{m}='V'", safeMode=m, reset=True, htmlReplacement='R'), {'src': '{m} {u}' + probe, 'noopts': True, 'cb': False},
+                      {'src': probe.strip(), 'noopts': True, 'cb': False}]))
+    out.append(H([{'src': '*first* call' + probe, 'noopts': True, 'cb': False}, {'src': "{m}='V'\n{m}", 'noopts': True, 'cb': False}]))
     return out
 
 
